@@ -7,6 +7,7 @@ import (
 	"errors"
 	"fmt"
 	"os"
+	"runtime"
 	"testing"
 
 	"github.com/parquet-go/parquet-go"
@@ -614,8 +615,16 @@ func runCaseInner(c Case, o *kit.Obs) *kit.Failure {
 			desc = fmt.Sprintf("%s module of rg %d col %d page %d replaced by the same module of another file written with the same keys", m.Kind, m.RG, m.Col, m.PageIdx)
 			swaps++
 		}
+		var ms0, ms1 runtime.MemStats
+		runtime.ReadMemStats(&ms0)
 		got, err, p := readAll(bad, ring, cols)
+		runtime.ReadMemStats(&ms1)
 		tf := fmt.Sprintf("{tamper=%s,module=%s}", tm.Kind, m.Kind)
+		// failing "with an error" includes not exhausting memory first: a forged 32-bit module length must not be
+		// trusted for an allocation (up to 4 GiB for a file of a few KiB; under a memory limit the process aborts)
+		if grown := ms1.TotalAlloc - ms0.TotalAlloc; grown > 256<<20+1000*uint64(len(bad)) {
+			return kit.Failf("c18/tamper-allocation"+feat+tf, "tamper %d (%s): reading the %d-byte file allocated %d MiB before failing (%v)", ti, desc, len(bad), grown>>20, err)
+		}
 		if p != nil {
 			return kit.Failf("c18/tamper-panic"+feat+tf, "tamper %d (%s): panic: %v", ti, desc, p)
 		}
